@@ -21,7 +21,13 @@ MANIFEST = {
             "assignment, what smgen.Generate's pipeline (Model/EngineSM.v, stage/phase order from Gen/Pipeline.v) writes for Test.TEMPLATEStateMachine.cpp "
             "is createoutput of lines without generator tag that are a well-formed fresh file (Preserve.wf_fresh_file); C07_fixed_point_shipped / "
             "C01_fixed_point_shipped instantiate C01 with it; C07_fresh_of_template is the generic theorem (any template of the block grammar with "
-            "in_grammar07 and distinct keys), C07_tags_consumed_shipped the generator-tag half for three shipped files. Model tied to the code by "
+            "in_grammar07 and distinct keys), C07_tags_consumed_shipped(_user) the generator-tag half for every shipped file inside the C16 grammar "
+            "(C07_shipped_files_in_grammar: Test.TEMPLATEStateMachine.cpp, TEMPLATEInternals.cs, Test.TEMPLATEStateMachine.cs, TEMPLATEReceiver.h/.cpp, "
+            "TEMPLATETransmitter.h/.cpp; files with user-tag lines outside blocks under the computed user_lines_closed). "
+            "C07_wf_out_Test_TEMPLATEStateMachine_cs / C07_fixed_point_shipped_cs / C01_fixed_point_shipped_cs: both halves for the shipped "
+            "Test.TEMPLATEStateMachine.cs (names_ok_cs = names_ok + no guard named like a state hook On<State>Entry/Exit; user_lines_plain for the "
+            "assignment), evaluated on every cs case (d07.names_ok_shipped_cs) with wf_fresh_file on the real lines; real = extracted model for the "
+            "two whole cs files on every case. Model tied to the code by "
             "comparing the real bytes of these files with EngineSM.generate on every random cpp/proto case; names_ok and wf_fresh_file are evaluated "
             "(extracted) on the real outputs. FOR THE OTHER FILES (PARTIAL): C07_template_tags_known, C07_template_user_tags_paired_unique (finite "
             "obligations over Gen/Templates.v), C07_instances_unique / C07_pair_instances_injective, C07_collect_unambiguous; the universally quantified "
@@ -143,7 +149,8 @@ DICT0 = [["<<<STATEMACHINENAMEUPPER>>>", "X"], ["<<<stateMachineName>>>", "x"], 
          ["<<<CLASSNAME>>>", "X"], ["<<<CLASS_NAME>>>", "x"], ["<<<PYIFGENNAME>>>", "Transition Table"], ["<<<NAMESPACE>>>", "NS"],
          ["<<<AUTHOR>>>", "a"], ["<<<GROUP>>>", "g"], ["<<<BRIEF>>>", "b"], ["<<<DLL_EXPORT>>>", ""]]
 MODELLED = {"cpp": ("statemachine_templates_embedded_arm", ["Test.TEMPLATEStateMachine.cpp"]),
-            "proto": (os.path.join("protocol_templates", "CPP"), ["TEMPLATEReceiver.h", "TEMPLATETransmitter.h"])}
+            "cs": ("statemachine_templates_cs_winlinmac", ["TEMPLATEInternals.cs", "Test.TEMPLATEStateMachine.cs"]),
+            "proto": (os.path.join("protocol_templates", "CPP"), ["TEMPLATEReceiver.h", "TEMPLATETransmitter.h", "TEMPLATETransmitter.cpp"])}
 
 
 def engine_tie(ctx, kind, table, iface, desc):
@@ -178,6 +185,15 @@ def engine_tie(ctx, kind, table, iface, desc):
             if dom and real_b is not None and ctx.km.call("wf_fresh", splitlines_keep(real_b)) != b"1":
                 ctx.violation("names_ok holds but the real Test.XStateMachine.cpp is not a well-formed fresh file",
                               dict(desc, finding_key="names-ok-but-not-wf"))
+        if tname == "Test.TEMPLATEStateMachine.cs":
+            # domain of C07_wf_out_Test_TEMPLATEStateMachine_cs: names_ok, no guard named like a state hook, the user line's output plain
+            ut = [[k, "" if v is None else str(v)] for k, v in iface.UserTags().items()]
+            dom = ctx.km.call("d07.names_ok_shipped_cs", lines, [list(r) for r in table], structs, protos, msgs, ut) == b"1"
+            ctx.count("names_ok_cs_%s" % ("true" if dom else "false"))
+            real_b = tree.get(tname.replace("TEMPLATE", "X"))
+            if dom and real_b is not None and ctx.km.call("wf_fresh", splitlines_keep(real_b)) != b"1":
+                ctx.violation("names_ok_cs holds but the real Test.XStateMachine.cs is not a well-formed fresh file",
+                              dict(desc, finding_key="names-ok-cs-but-not-wf"))
         if not r:
             ctx.count("engine_tie_outside_model_domain")      # a name spells an unmodelled tag etc.
             continue
@@ -211,8 +227,8 @@ def run(ctx):
             nt = sm_case(ctx, kind, t, seed, rng.choice(["X", "CDPlayer"]), ut)
             ctx.case((kind, json.dumps(t), seed, json.dumps(ut)), nontrivial=nt > 0)
             ctx.count("random_" + kind)
-            if kind == "cpp":
-                engine_tie(ctx, "cpp", t, kj.events_interface(random.Random(seed), t, "cpp", ut), {"table": t, "iface_seed": seed})
+            if kind in ("cpp", "cs"):
+                engine_tie(ctx, kind, t, kj.events_interface(random.Random(seed), t, kind, ut), {"table": t, "iface_seed": seed})
             if i == 0:
                 ctx.sample({"kind": kind, "table": t, "usertags": ut})
     for i in range(n):
